@@ -116,6 +116,24 @@ def special_sources():
     add('jf0-module', 'if f"a":\n    x = 1\nelse:\n    pass\ny = 2\n')
     add('jf0-try', 'def f(x):\n    try:\n        if f"a":\n            x = 1\n        else:\n            pass\n    finally:\n        x = 2\n    return x\n')
     add('jf0-several', 'def f(a):\n    if f"a":\n        a = 1\n    else:\n        pass\n    if f"b":\n        a = 2\n    else:\n        pass\n    while a:\n        if f"c":\n            a -= 1\n        else:\n            pass\n    return a\n')
+    # <=3.9: the peephole pass shrinks code after the jump widths were fixed (`a, b = b, a` -> ROT_TWO), which can leave
+    # two jumps around the 255/256 boundary holding each other at two code units although one would do: a layout that is
+    # consistent but not minimal (seeded change C01-r5: width overrides dropped where "implied")
+    def _pad(n, ind):
+        out = []
+        if n % 4 == 2:
+            out.append(ind + "p.q\n"); n -= 6
+        return "".join(out + [ind + "p\n"] * (n // 4))
+    for kind in ('while', 'try', 'for'):
+        for before in range(244, 258, 2):
+            for inside in range(226, 238, 2):
+                if kind == 'while':
+                    src = _pad(before, "") + "while c:\n    a, b = b, a\n" + _pad(inside, "    ")
+                elif kind == 'try':
+                    src = _pad(before, "") + "try:\n    while c:\n        a, b = b, a\n" + _pad(inside, "        ") + "except E:\n    pass\n"
+                else:
+                    src = _pad(before, "") + "for x in y:\n    while c:\n        a, b = b, a\n" + _pad(inside, "        ")
+                add('nonminimal-%s-%d-%d' % (kind, before, inside), src)
     # int constants no C double can hold (>= 2**1024): any float(i) / math.isnan(i) on the way raises OverflowError
     # (seeded change C07-r5); also as default value, in a tuple, in a set-membership test, in a nested function
     add('huge-int', "x = %d\ny = -%d\nz = (%d, 1)\nw = x in {%d, 2}\ndef f(a=%d):\n    return a + %d\n" % (
@@ -445,7 +463,7 @@ def all_code(c):
 
 def program_stream(seed, tier, shard=0, nshards=1, want=('fixed', 'special', 'gen', 'stdlib')):
     """yield (label, src, modes, opts).  The same (seed, tier) gives the same stream on every interpreter."""
-    quick = tier == 'quick'
+    quick = tier in ('quick', 'search')       # 'search' = the quick stream with other seeds and a somewhat larger sample
     items = []
     if 'fixed' in want:
         for n, s in fixed_sources():
@@ -463,10 +481,10 @@ def program_stream(seed, tier, shard=0, nshards=1, want=('fixed', 'special', 'ge
             with open(f, 'rb') as fh:
                 items.append(('stdlib-test/support/__init__.py', fh.read(), ('exec',), (0,)))
     if 'gen' in want:
-        for n, s in generated_sources(seed, 150 if quick else 3000):
+        for n, s in generated_sources(seed, {'quick': 150, 'search': 400}.get(tier, 3000)):
             items.append((n, s, ('exec',) if quick else ('exec', 'single'), (0,) if quick else (0, 1, 2)))
     if 'stdlib' in want:
-        for n, s in stdlib_sources(seed, 40 if quick else None):
+        for n, s in stdlib_sources(seed, {'quick': 40, 'search': 80}.get(tier)):
             items.append((n, s, ('exec',), (0,) if quick else (0, 2)))
     for i, it in enumerate(items):
         if i % nshards == shard:
